@@ -505,8 +505,11 @@ Definition check_e2e_case (c : e2e_case) : list (string * bool) :=
        let inc := flat_map (included_keys (ec_vars c)) (o_sel (ec_op c)) in
        match obs_data c with Some d => forallb (fun k => mem k inc) (json_keys (flat_map leaf_keys (o_sel (ec_op c))) d) | None => true end);
     ("prop.c15.directives_not_forwarded", forallb (fun r => negb (existsb has_directive (or_doc r))) (obs_requests c));
-    ("prop.c15.vars_exact", forallb (fun r => seteq_str (or_varnames r) (dedupe_str (flat_map sel_vars (or_doc r))) &&
-                                              seteq_str (or_declared r) (or_varnames r)) (obs_requests c));
+    (* a document that does not even parse (recorded C04/C14 findings) has no variables to compare: C04 judges it *)
+    ("prop.c15.vars_exact", forallb (fun r => match or_doc r with
+                                              | [] => true
+                                              | _ => seteq_str (or_varnames r) (dedupe_str (flat_map sel_vars (or_doc r))) &&
+                                                     seteq_str (or_declared r) (or_varnames r) end) (obs_requests c));
     (* a document that does not even lex (the Go-escape finding) cannot be judged here *)
     ("prop.c14.vars_exact", forallb (fun r => match or_doc r with
                                               | [] => true
